@@ -632,7 +632,7 @@ fn self_check_roundtrip(rep: &mut Report) {
 }
 
 pub fn run(ctx: &Ctx, rep: &mut Report) {
-    rep.rule = "SEQ: breadth-first over all histories of mem_writer operations up to the depth bound (full 53-letter alphabet, 20-letter core, and a ~170-letter alphabet of every entry point x every one of the 19 format types at depth 2 (thorough 3)), re-executed on a fresh Buffer, dedup on (buffer bytes, slot table, array table); plus every string of <=3 code points over a 10-letter alphabet after 3 prefix lengths. nontrivial = distinct (deduplicated state, op) transitions in which a fill-later op (set_value/set_value_at) targets a slot that is followed by other data".into();
+    rep.rule = "SEQ: breadth-first over all histories of mem_writer operations up to the depth bound (full 53-letter alphabet, 20-letter core, and a ~170-letter alphabet of every entry point x every one of the 19 format types at depth 2 (thorough 3)), re-executed on a fresh Buffer, dedup on (buffer bytes, slot table, array table); plus every string of <=3 code points over a 10-letter alphabet after 3 prefix lengths and 4 fill patterns at 47 lengths around 64..4096 / up to 40000 UTF-16 units. nontrivial = distinct (deduplicated state, op) transitions in which a fill-later op (set_value/set_value_at) targets a slot that is followed by other data".into();
     rep.assume("scroll's derived Pread is the inverse of its Pwrite for the POD format structs (checked at start-up for every type; primitives and three structs are checked byte-exact against a hand encoder)");
     if let Some(case) = &ctx.replay {
         if let Some(h) = case.get("history").and_then(|h| h.as_array()) {
@@ -681,6 +681,25 @@ pub fn run(ctx: &Ctx, rep: &mut Report) {
                     nstr += 1;
                 }
             }
+        }
+    }
+    // long strings: lengths around multiples of 128 / 256 UTF-16 units, with 1-unit and 2-unit characters and
+    // a surrogate pair straddling each boundary
+    let mut lens: Vec<usize> = Vec::new();
+    for base in [64usize, 128, 256, 384, 512, 1024, 4096] {
+        lens.extend(base - 2..=base + 3);
+    }
+    lens.extend([1000usize, 5000, 32767, 32768, 40000]);
+    for n in lens {
+        for pat in 0..4 {
+            let s: String = match pat {
+                0 => "a".repeat(n),
+                1 => "\u{e9}".repeat(n),
+                2 => "\u{1f600}".repeat(n / 2) + if n % 2 == 1 { "z" } else { "" },
+                _ => "b".repeat(n - 1) + "\u{1f980}" + "c",
+            };
+            check_string(rep, pat, &s);
+            nstr += 1;
         }
     }
     rep.set("strings_checked", json!(nstr));
